@@ -252,6 +252,9 @@ namespace bloch::runtime {
         bool m_echoEnabled = true;
         bool m_warnOnExit = true;
         bool m_executed = false;  // single-use guard
+        // Set by the destructor: remaining objects are freed without calling back into the
+        // interpreter (no user destructors, no qubit bookkeeping).
+        bool m_tearingDown = false;
         // Class runtime metadata and heap tracking
         std::unordered_map<std::string, std::shared_ptr<RuntimeClass>> m_classTable;
         std::vector<std::weak_ptr<Object>> m_heap;
